@@ -56,6 +56,11 @@ def helper_tables(darsia, n, table, rng):
     return e
 
 
+def placement(im):
+    """origin and dimensions of a result image, in 1e-6 units (placement of the reduced/sliced image)."""
+    return [int(round(1e6 * float(x))) for x in list(np.asarray(im.origin, dtype=float)) + list(im.dimensions)]
+
+
 def tags(a):
     return np.asarray(a).astype(np.int64).tolist()
 
@@ -65,33 +70,38 @@ def slice_events(darsia, rng, shape, table, tid):
     n = len(shape)
     ev = []
     h = [rng.choice([0.1, 0.5, 0.3 / 7]) for _ in range(n)]
-    img, o, arr = build_image(darsia, rng, shape, h, rng.choice(["default", "user"]), "scalar", table)
+    img, o, arr = build_image(darsia, rng, shape, h, rng.choice(["default", "user", "user"]), "scalar", table)
     for c in range(n):
         name = "xyz"[c]
         for mode in ["sum"]:
-            byindex = []
+            byindex, byindexmeta = [], []
             for m in range(n):
                 r = safe(darsia.reduce_axis, img, m, mode)
                 byindex.append(tags(r.img) if r is not None else "ERR")
+                byindexmeta.append(placement(r) if r is not None else [])
             r = safe(darsia.reduce_axis, img, name, mode)
             ev.append({"op": "reduce", "tid": tid, "n": n, "c": c, "shape": list(shape), "mode": mode,
+                       "bynamemeta": placement(r) if r is not None else [], "byindexmeta": byindexmeta,
                        "byname": tags(r.img) if r is not None else [], "bynameok": int(r is not None),
                        "byindex": [b if b != "ERR" else [] for b in byindex], "byindexok": [int(b != "ERR") for b in byindex]})
         # slices: cut through the centre of voxel q along the matrix axis belonging to name c
         m_of_c = [m for m in range(n) if table[m][0] - 1 == c][0]
         for q in range(shape[m_of_c]):
-            byindex = []
+            byindex, byindexmeta = [], []
             for m in range(n):
                 if q < shape[m]:
                     r = safe(lambda: img.slice(q, m))
                     byindex.append(tags(r.img) if r is not None else "ERR")
+                    byindexmeta.append(placement(r) if r is not None else [])
                 else:
                     byindex.append("n/a")
+                    byindexmeta.append([])
             centre = np.asarray(img.coordinatesystem.coordinate([q if mm == m_of_c else 0 for mm in range(n)]), dtype=float)
             step = np.asarray(img.coordinatesystem.coordinate([q + 1 if mm == m_of_c else 0 for mm in range(n)]), dtype=float)
             cut = float(0.5 * (centre[c] + step[c]))
             r = safe(lambda: img.slice(cut, name))
             ev.append({"op": "slice", "tid": tid, "n": n, "c": c, "shape": list(shape), "q": q,
+                       "bynamemeta": placement(r) if r is not None else [], "byindexmeta": byindexmeta,
                        "byname": tags(r.img) if r is not None else [], "bynameok": int(r is not None),
                        "byindex": [b if b not in ("ERR", "n/a") else [] for b in byindex],
                        "byindexok": [int(b != "ERR") for b in byindex]})
